@@ -11,7 +11,7 @@ from gv.model import dbutil
 ID = "C18"
 RULE = (
     "Part 'seq' (shards = record x start): every (record, start<=end, strand {+,-,.}, use_strand {True, False, the truthy non-bool 1}) "
-    "over a two-record FASTA (12 bases; 9 bases with IUPAC ambiguity codes) x FASTA given as pyfaidx object, as path, as a path that "
+    "over a two-record FASTA (12 bases, the middle four in lower case; 9 bases with IUPAC ambiguity codes) x FASTA given as pyfaidx object, as path, as a path that "
     "held another reference a moment ago, and as a path with a stale index file next to it; len(feature), sequence() (keyword and "
     "positional use_strand) against reference slicing / reverse complement, and sequence length = len. Part 'bed' (shards = blocks of 4 "
     "exon sets): every set of <= 3 pairwise disjoint exons (incl. none) over positions 1..6 (quick, 176 sets) / 1..8 (thorough, 709) x "
@@ -35,9 +35,10 @@ ASSUMPTIONS = [
     "any truthy use_strand value means strand-aware",
 ]
 
-RECORDS = {"chrA": "ACGTTGCAAGCT", "chrB": "GRYKMCNBD"}        # chrB carries IUPAC ambiguity codes
+RECORDS = {"chrA": "ACGTtgcaAGCT", "chrB": "GRYKMCNBD"}        # chrA is soft-masked in the middle (case is content); chrB carries IUPAC ambiguity codes
 COMP = {"A": "T", "C": "G", "G": "C", "T": "A", "N": "N", "R": "Y", "Y": "R", "K": "M", "M": "K", "B": "V", "V": "B",
         "D": "H", "H": "D", "S": "S", "W": "W"}
+COMP.update({k.lower(): v.lower() for k, v in list(COMP.items())})
 
 
 def exon_sets(npos):
